@@ -342,10 +342,9 @@ def _aliases(fn, roots):
     return al
 
 
-def rule_py_pure(ctx, py):
+def rule_py_pure(ctx, py, R="C08.PY-PURE"):
     """C08.PY-PURE -- running a simulation does not modify the script (or the system inside it) that the caller handed in:
     otherwise the second use of the same script is not the first one repeated"""
-    R = "C08.PY-PURE"
     MUT = ("append", "extend", "insert", "pop", "remove", "clear", "sort", "reverse", "update", "setdefault", "fill", "resize")
     n = 0
     for q, roots in (("librdengine.LibRDEngine.setup", ["script"]), ("librdengine.LibRDEngine._setup_grid", ["script"]),
